@@ -131,6 +131,11 @@ def directive_decode_task(ck, task):
             ck.unknown("G-REFUSE", fn, cons, "no modulus check found among the refusals")
     # the mandatory parameters lie before the end of the parameter area (declared length minus CRC trailer)
     need = H + 1 + min_params_len(kind.name, large) + (2 if crc else 0)
+    # ... and conversely a too-short refusal of the PDU decoder itself (not of the TLV/LV decoders it calls for optional
+    # items) is taken only when the buffer is shorter than the declared PDU or the declared length cannot hold the
+    # mandatory parameters: a well-formed PDU with minimal parameters is not refused
+    D.check_short_refusals_justified(ck, it, fn, "data", N, f"the declared PDU, or declaring less than the {need} octets of a minimal {kind.name} PDU ({tag})",
+                                     also=binop("<", N, C(need)), skip_funcs=("CfdpTlv.unpack", "CfdpLv.unpack", "Tlv.unpack", "Tlv.from_tlv", "_common_unpacker"))
     st, m = D.prove(env.facts, binop(">=", N, C(need)))
     cons = f"declared length too small for the mandatory parameters{' and the CRC' if crc else ''} is refused ({tag})"
     if st == "proved":
